@@ -22,6 +22,10 @@ LEVEL_NOTE = (
     'in the wrapper theorem (their own error handling after validation is checked by correspondence only). '
     'Known finding D59 (SUMPRODUCT reports #N/A for any error element, asserted by the suite).')
 DESIGN_REF = '§4 C07'
+
+# theorems of the integrated pipeline model (Props/X01.lean) that carry this property's theorems to formula TEXTS in a
+# compiled workbook; re-built and audited with this check (harness/common.prepare: soft obligations)
+TRANSPORT = ('XlVerif.Props.X01', ['compile_call_formula', 'libSem_call_body'])
 TRUSTED = [
     'Lean 4.33 kernel; axioms propext, Classical.choice, Quot.sound only',
     'hand-written models lean/XlVerif/Model/Value.lean, Model/Validate.lean (correspondence-checked)',
